@@ -66,7 +66,8 @@ process:
 	atomic.StoreUint32(&m.status, idle)
 	user := atomic.LoadInt32(&m.num)
 	system := atomic.LoadInt32(&m.systemNum)
-	if user > 0 || system > 0 {
+	// 暂停期间仅系统消息可被处理，若此时仅剩用户消息则不应继续抢占处理权（否则会空转），由 Resume 负责再次唤醒
+	if system > 0 || (user > 0 && atomic.LoadUint32(&m.paused) == 0) {
 		if atomic.CompareAndSwapUint32(&m.status, idle, processing) {
 			goto process
 		}
